@@ -94,6 +94,7 @@ class Ctx(object):
                             "depth": r.depth, "wall_s": round(r.wall, 1), "graph": True})
         if not r.ok:
             raise tlc.TLCError("specification %s/%s (%s) violated %s while dumping its graph" % (sub, module, cfg, r.violated))
+        g.result = r          # TLCResult of the run (r.coverage when called with coverage=True)
         return g
 
     def tlc_histories(self, sub, module, cfg, num, depth, **kw):
